@@ -131,6 +131,10 @@ def classify(secs, what):
 
 
 def eval_case(case):
+    if case.get('big'):
+        res = ChunkResult()
+        _cli(res, dict(VARS))
+        return [v for v in res.violations if v['key'] == 'C01:cli-large-log']
     secs = case['sections']
     creator = case.get('creator', 'O')
     p = pelgen.pel_from_spec({'creator': creator, 'sections': secs})
@@ -278,4 +282,59 @@ def _cli(res, byname):
                     res.violation('C01:conformance', 'real executable and in-process driver disagree on -f', {'creator': 'O', 'sections': secs})
                 else:
                     n_ok += 1
+    # every way the tool reads a file from a directory must hand the decoder the whole file: large logs (255 sections, one
+    # maximal section) next to a small one, through -a, -j, -i, --bmc-id, compared with what parsePEL returns for the bytes
+    with tempfile.TemporaryDirectory(prefix='c01big_', dir=clidrv.odd_root()) as d:
+        os.mkdir(os.path.join(d, 'in'))
+        os.mkdir(os.path.join(d, 'out'))
+        specs = [
+            {'eid': 0x50000B01, 'plid': 0x50000B01, 'obmc': 11, 'creator': 'O', 'sections': [byname['MT']]},
+            {'eid': 0x50000B02, 'plid': 0x50000B02, 'obmc': 12, 'creator': 'O', 'sections': [byname['UD1'], byname['MT']] * 126},
+            {'eid': 0x50000B03, 'plid': 0x50000B03, 'obmc': 13, 'creator': 'O', 'sections': [
+                {'t': 'UD', 'comp': 0xABCD, 'payload': bytes((i * 7) & 0xff for i in range(65527)).hex()}, byname['MT']]},
+            {'eid': 0x50000B04, 'plid': 0x50000B04, 'obmc': 14, 'creator': 'O', 'sections': [
+                {'t': 'ZZ', 'payload': bytes((i * 3) & 0xff for i in range(16377)).hex()}, byname['MT']]},
+        ]
+        want = []
+        for i, sp in enumerate(specs):
+            b = pelgen.encode_pel(pelgen.pel_from_spec(sp))
+            with open(os.path.join(d, 'in', 'big%d_%08X' % (i, sp['eid'])), 'wb') as f:
+                f.write(b)
+            want.append(decode.parse(b))
+        docs = [w.get('doc') for w in want]
+        case = {'cli': True, 'big': True}
+        core.arm(120)
+        ra = clidrv.run_main(['-p', os.path.join(d, 'in'), '-a', '-E'])
+        clidrv.run_main(['-p', os.path.join(d, 'in'), '-j', '-E', '-o', os.path.join(d, 'out')])
+        singles = [clidrv.run_main(['-p', os.path.join(d, 'in'), '-i', '%08X' % sp['eid']]) for sp in specs] + \
+                  [clidrv.run_main(['-p', os.path.join(d, 'in'), '--bmc-id', str(sp['obmc'])]) for sp in specs]
+        core.disarm()
+        from mc import strictjson
+        problems = []
+        try:
+            if strictjson.loads(ra.stdout) != docs:
+                problems.append('-a shows %d documents that differ from the %d decoded ones' % (len(strictjson.loads(ra.stdout)), len(docs)))
+        except Exception as e:
+            problems.append('-a output unreadable: %s' % e)
+        files = sorted(os.listdir(os.path.join(d, 'out')))
+        if len(files) != len(specs):
+            problems.append('-j wrote %d files for %d logs' % (len(files), len(specs)))
+        for fn, doc in zip(files, docs):
+            with open(os.path.join(d, 'out', fn)) as f:
+                try:
+                    if strictjson.loads(f.read()) != doc:
+                        problems.append('-j file %s differs from the decoded document' % fn)
+                except Exception as e:
+                    problems.append('-j file %s unreadable: %s' % (fn, e))
+        for r, doc in zip(singles, docs + docs):
+            try:
+                if strictjson.loads(r.stdout) != doc:
+                    problems.append('-i/--bmc-id document differs from the decoded one')
+            except Exception as e:
+                problems.append('-i/--bmc-id output unreadable: %s (%r)' % (e, r.stdout[:40]))
+        res.case(nontrivial_key=json.dumps(case), outcome='cli-big:' + ('differs' if problems else 'ok'))
+        if any(w['kind'] != 'doc' for w in want):
+            problems.append('large well-formed logs not decoded by parsePEL: %s' % [w['kind'] for w in want])
+        if problems:
+            res.violation('C01:cli-large-log', '; '.join(problems[:3]), case)
     res.extra['traces_validated_against_impl'] = n_ok
